@@ -56,7 +56,7 @@ func (c06) Workers() int  { return 8 }
 // down (a fatal error no recover can catch) is still named by the check.
 func (c06) Journal() bool { return true }
 func (c06) Rule() string {
-	return "random route tables (0-6 routes x 0-3 matchers among Packet/StanzaType/IQNamespaces, 1-3 arguments each, catch-all routes at random positions, duplicated and overlapping routes, arguments in mixed case, ASCII only because the model lower-cases ASCII) x one random packet (message/presence with assorted types incl. empty, *IQ of type get/set/result/error/other with payload nil / built by the library builders / zero-valued / custom namespace / parsed from XML (registered payload types, and types unknown to the registry such as ping / vCard / a mixed-case application namespace, which land in the generic Any node), with or without a generic Any node, and 9 kinds of non-stanza packets; no SMAnswer), 0-2 pending IQ-result ids (clashing with the ids of requests as well as of responses), and in one case in five 1-2 ids of requests that have ENDED (context cancelled, entry still in IQResultRoutes because the clean-up goroutine is held back: a context whose Err() is non-nil and whose Done() never fires) - a response carrying such an id is a received packet like any other: first matching route exactly once, delivered to nobody, stale entry gone; a live pending request still takes its response and no handler runs; namespace arguments aim at the payload namespace verbatim or in another letter case; corpus: an unmatched get whose generic payload is nested 400000 levels (generated from the depth); the recording Sender serialises what it is given, as Client.Send / Component.Send do; distinct = distinct (matcher kinds and per-route verdict, packet class, pending hit); non-trivial = at least 2 routes and either a route other than the first is selected or nothing matches an IQ get/set"
+	return "random route tables (0-6 routes x 0-3 matchers among Packet/StanzaType/IQNamespaces, 1-3 arguments each, catch-all routes at random positions, duplicated and overlapping routes, arguments in mixed case; mostly ASCII, the domain of the model's lower-casing, plus names that strings.ToLower folds onto ASCII ones or onto each other - U+0130 (dotted capital I) in Packet('\u0130Q'), U+017F (long s) in 'me\u017f\u017fage', U+212A (Kelvin sign), '\u00c9' against the type '\u00e9' - for which the model is handed the argument as strings.ToLower returns it) x one random packet (message/presence with assorted types incl. empty, *IQ of type get/set/result/error/other with payload nil / built by the library builders / zero-valued / custom namespace / parsed from XML (registered payload types, and types unknown to the registry such as ping / vCard / a mixed-case application namespace, which land in the generic Any node), with or without a generic Any node, and 10 kinds of non-stanza packets incl. SMAnswer - routed like the others for a Sender that is not a *Client), 0-2 pending IQ-result ids (clashing with the ids of requests as well as of responses), and in one case in five 1-2 ids of requests that have ENDED (context cancelled, entry still in IQResultRoutes because the clean-up goroutine is held back: a context whose Err() is non-nil and whose Done() never fires) - a response carrying such an id is a received packet like any other: first matching route exactly once, delivered to nobody, stale entry gone; a live pending request still takes its response and no handler runs; namespace arguments aim at the payload namespace verbatim or in another letter case; corpus: an unmatched get whose generic payload is nested 400000 levels (generated from the depth); the recording Sender serialises what it is given, as Client.Send / Component.Send do; distinct = distinct (matcher kinds and per-route verdict, packet class, pending hit); non-trivial = at least 2 routes and either a route other than the first is selected or nothing matches an IQ get/set"
 }
 
 // ---- packets -------------------------------------------------------------------------
@@ -70,6 +70,7 @@ func (p *c06Payload) GetSet() *stanza.ResultSet { return nil }
 var c06Others = []stanza.Packet{
 	stanza.SMRequest{}, stanza.StreamFeatures{}, stanza.StreamError{}, stanza.SMEnabled{},
 	stanza.Handshake{}, stanza.SASLSuccess{}, stanza.StreamClosePacket{}, stanza.SMFailed{}, stanza.SMResumed{},
+	stanza.SMAnswer{H: 3}, // route() looks at it first (retransmission for a *Client sender, C10), then routes it like the others
 }
 
 func c06Build(d c06Pkt) stanza.Packet {
@@ -358,6 +359,15 @@ func (c06) Run(inp interface{}) Sx {
 	return L(LS(log), LS(sender.sent), LS(sender.raws), Zi(sender.sendIQ), LS(delivered), LS(left), LS(endedLeft))
 }
 
+// c06ModelArg: the model lower-cases ASCII only; an argument outside ASCII is handed to it as
+// strings.ToLower returns it (idempotent under the model's own lower-casing).
+func c06ModelArg(a string) string {
+	if c06IsASCII(a) {
+		return a
+	}
+	return strings.ToLower(a)
+}
+
 func c06Strs(xs []string) Sx {
 	out := make([]Sx, len(xs))
 	for i, x := range xs {
@@ -374,9 +384,13 @@ func (c06) Input(inp interface{}) Sx {
 		for j, m := range ms {
 			switch m.K {
 			case "packet":
-				items[j] = L(Z(0), SBytes(m.A[0]))
+				items[j] = L(Z(0), SBytes(c06ModelArg(m.A[0])))
 			case "type":
-				items[j] = L(Z(1), c06Strs(m.A))
+				as := make([]string, len(m.A))
+				for k, a := range m.A {
+					as[k] = c06ModelArg(a)
+				}
+				items[j] = L(Z(1), c06Strs(as))
 			default:
 				items[j] = L(Z(2), c06Strs(m.A))
 			}
@@ -650,7 +664,15 @@ func (c06) Key(inp interface{}) (string, bool) {
 		}
 		for _, m := range ms {
 			hist("matcher:" + m.K)
+			for _, a := range m.A {
+				if m.K != "ns" && !c06IsASCII(a) {
+					hist("matcher-arg:non-ascii")
+				}
+			}
 		}
+	}
+	if f.kind == 3 && in.Pkt.Other%len(c06Others) == 9 {
+		hist("pkt:other/SMAnswer")
 	}
 	nt := len(in.Routes) >= 2 && !w.pendingHit && (w.first > 0 || w.reply)
 	if len(in.Ended) > 0 {
@@ -662,12 +684,13 @@ func (c06) Key(inp interface{}) (string, bool) {
 // ---- generation ------------------------------------------------------------------------
 
 var (
-	c06Names    = []string{"message", "presence", "iq", "Message", "PRESENCE", "IQ", "Iq", "", "foo", "stream:error", "a"}
-	c06MsgTypes = []string{"", "chat", "normal", "error", "groupchat", "headline", "Chat", "get"}
+	c06Names    = []string{"message", "presence", "iq", "Message", "PRESENCE", "IQ", "Iq", "", "foo", "stream:error", "a", "\u0130Q", "\u0130q", "me\u017f\u017fage", "PRE\u017fENCE", "i\u0307q", "\u00c9", "\u212a"}
+	c06MsgTypes = []string{"", "chat", "normal", "error", "groupchat", "headline", "Chat", "get", "\u00e9", "k"}
 	c06PrTypes  = []string{"", "unavailable", "subscribe", "error", "probe", "subscribed", "Unavailable"}
 	c06IQTypes  = []string{"get", "set", "result", "error", "get", "set", "", "GET", "Set", "chat"}
 	c06TypeArgs = []string{"chat", "CHAT", "normal", "Normal", "error", "Error", "get", "GET", "set", "Set", "result", "RESULT",
-		"unavailable", "subscribe", "", "groupchat", "headline", "probe", "bogus"}
+		"unavailable", "subscribe", "", "groupchat", "headline", "probe", "bogus",
+		"headl\u0130ne", "\u00c9", "\u00e9", "\u212a", "re\u017fult", "\u017fet", "CHAT\u00c9"}
 	c06NsArgs = []string{stanza.NSDiscoInfo, "HTTP://JABBER.ORG/protocol/disco#info", "http://jabber.org/protocol/disco#items",
 		"jabber:iq:version", "JABBER:IQ:VERSION", "Jabber:Iq:Roster", "jabber:iq:roster", "", "urn:custom", "urn:Custom", "URN:X", "urn:other",
 		"urn:xmpp:ping", "vcard-temp", "urn:example:MyApp:Orders", "urn:example:myapp:orders", "urn:any", "urn:Custom:NS", "urn:x"}
@@ -802,6 +825,15 @@ func (c06) Gen(r *rand.Rand, tier string) []interface{} {
 		c06In{Routes: [][]c06Matcher{{pm("packet", "iq")}}, Pending: []string{"1"}, Pkt: c06Pkt{Kind: "iq", Type: "error", Id: "1", From: "srv.example"}}, // a response with a pending id goes to the request
 		c06In{Routes: [][]c06Matcher{{pm("packet", "iq")}}, Pending: []string{"1"}, Pkt: c06Pkt{Kind: "message", Id: "1"}},
 		c06In{Routes: [][]c06Matcher{{pm("packet", "message")}}, Pending: []string{"2", "1"}, Pkt: c06Pkt{Kind: "iq", Type: "result", Id: "1"}},
+		// names outside ASCII that strings.ToLower folds onto the packet names / types
+		c06In{Routes: [][]c06Matcher{{pm("packet", "\u0130Q")}, {}}, Pkt: get},
+		c06In{Routes: [][]c06Matcher{{pm("packet", "me\u017f\u017fage")}, {}}, Pkt: c06Pkt{Kind: "message", Type: "chat"}},
+		c06In{Routes: [][]c06Matcher{{pm("type", "headl\u0130ne", "\u017fet")}, {}}, Pkt: c06Pkt{Kind: "message", Type: "headline"}},
+		c06In{Routes: [][]c06Matcher{{pm("type", "\u00c9")}, {}}, Pkt: c06Pkt{Kind: "message", Type: "\u00e9"}},
+		c06In{Routes: [][]c06Matcher{{pm("packet", "i\u0307q")}, {pm("packet", "iq")}}, Pkt: get},
+		// an SMAnswer is routed like any other non-stanza packet
+		c06In{Routes: [][]c06Matcher{{pm("packet", "iq")}, {pm("packet", "")}, {}}, Pkt: c06Pkt{Kind: "other", Other: 9}},
+		c06In{Routes: [][]c06Matcher{{pm("type", "get")}}, Pkt: c06Pkt{Kind: "other", Other: 9}},
 		// a response for a request that has ended (entry not yet cleaned up) is a packet like any other: first matching route, once
 		c06In{Routes: [][]c06Matcher{{pm("packet", "iq")}}, Ended: []string{"1"}, Pkt: c06Pkt{Kind: "iq", Type: "result", Id: "1", From: "srv.example"}},
 		c06In{Routes: [][]c06Matcher{{pm("packet", "message")}, {pm("packet", "iq"), pm("type", "result", "error"), pm("ns", "jabber:iq:version")}, {pm("packet", "iq")}, {}}, Ended: []string{"abc"}, Pending: []string{"1"}, Pkt: c06Pkt{Kind: "iq", Type: "result", Id: "abc", From: "srv.example", Payload: "version"}},
